@@ -114,6 +114,9 @@ SYMBOLS: Dict[str, dict] = {
     # sweeps (deep coverage lives in C03)
     "sweep_src": dict(node=_sweep("VSrc", {"value": "2.0 * t"}, {"t": {"values": [1.0, 2.0, 3.0]}}, "FloatDataCollection"),
                       kind="sweep_src", proc="VSrc", vars={"t": [1.0, 2.0, 3.0]}, params=[], cfg={}, reads=["t_values"]),
+    # a collection beyond the small scope: 40 distinct elements (order must survive every element-wise stage)
+    "sweep_src40": dict(node=_sweep("VSrc", {"value": "2.0 * t"}, {"t": {"values": [float(40 - i) + (i % 7) * 0.125 for i in range(40)]}}, "FloatDataCollection"),
+                        kind="sweep_src", proc="VSrc", vars={"t": [float(40 - i) + (i % 7) * 0.125 for i in range(40)]}, params=[], cfg={}, reads=["t_values"]),
     "sweep_op": dict(node=_sweep("VMul", {"factor": "t"}, {"t": {"values": [1.0, 2.0]}}, "FloatDataCollection"),
                      kind="sweep_op", proc="VMul", vars={"t": [1.0, 2.0]}, params=[], cfg={}, reads=["t_values"]),
     "sweep_two": dict(node=_sweep("VTwo", {"factor": "t"}, {"t": {"values": [1.0, 2.0]}}, "FloatDataCollection"),
@@ -147,6 +150,10 @@ for _base, _param in (("src", "value"), ("mul3", "factor"), ("two_cfg", "addend"
         SYMBOLS[f"{_base}@{_vn}"] = _sym
         MENU_SYMBOLS.append(f"{_base}@{_vn}")
 # short programs around each of them
+# a node that takes more than a second of wall-clock time (only where durations are judged: its name keeps it out of ALL)
+SYMBOLS["sleep@1.15s"] = dict(node=_n("VSleep", {"seconds": 1.15}), kind="op", proc="VSleep", params=[("seconds", 0.0)], cfg={"seconds": 1.15}, reads=[])
+SYMBOLS["sleep@2.1s"] = dict(node=_n("VSleep", {"seconds": 2.1}), kind="op", proc="VSleep", params=[("seconds", 0.0)], cfg={"seconds": 2.1}, reads=[])
+SLOW_PROGS: List[Tuple[str, ...]] = [("src", "sleep@1.15s", "mul3"), ("src", "mul3", "sleep@2.1s")]
 MENU_PROGS: List[Tuple[str, ...]] = [((m,) if m.startswith("src@") else ("src", m)) for m in MENU_SYMBOLS] + \
     [((m, "probe_r") if m.startswith("src@") else ("src", m, "probe_r")) for m in MENU_SYMBOLS]
 
@@ -156,6 +163,8 @@ LONG_PROGS: List[Tuple[str, ...]] = [
     ("src",) + ("mul3", "probe_r", "ren_r_factor", "mul") * 15,
     ("sweep_src",) + ("slice_muldef", "slice_probe") * 20,
     ("src",) + ("ctxw", "tmpl_a", "del_a", "probe_factor", "muldef", "ren_factor_a", "failif", "del_a") * 4,
+    ("sweep_src40", "slice_mul3", "slice_probe", "slice_muldef", "sum", "gainprobe"),
+    ("sweep_src40", "slice_kwmul", "slice_probe"),
 ]
 WIDE_CONTEXT: Dict[str, Any] = {f"wide_{i:03d}": (float(i) if i % 3 else f"s{i}") for i in range(200)}  # KeyboardInterrupt-class aborts are exercised by C06 only
 # one representative per kind
